@@ -1,6 +1,4 @@
-(** SnapInv: the snapshot-counter invariant (I-snap of DESIGN 5.0) and the facts behind properties/C04.v.
-
-    TO BE PROVED (no Admitted may remain).  Definitions below are fixed; helper lemmas are free. *)
+(** SnapInv: the snapshot-counter invariant (I-snap of DESIGN 5.0) and the facts behind properties/C04.v. *)
 From DynVerif Require Import Base Graph Spec.
 From DynVerif.proofs Require Import AListFacts CoreInv.
 From Coq Require Import Sorting.Sorted Sorting.Permutation.
@@ -19,3 +17,347 @@ Definition InvSnap (g : graph) : Prop :=
   NoDup (map fst (g_snaps g)) /\
   (forall t, snap_get g t = 2 * count_present g t) /\
   (forall t c, In (t, c) (g_snaps g) -> 0 < c).
+
+(** * generic list helpers *)
+Lemma NoDup_snoc {A} (l : list A) x : NoDup l -> ~ In x l -> NoDup (l ++ [x]).
+Proof.
+  induction l as [|y r IH]; intros Hnd Hni; simpl.
+  - constructor; [intros []|constructor].
+  - inversion Hnd as [|? ? Hy Hr]; subst. constructor.
+    + rewrite in_app_iff. intros [H|[H|[]]]; [auto|]. subst. apply Hni. left; reflexivity.
+    + apply IH; auto. intros H; apply Hni; right; assumption.
+Qed.
+
+Lemma zaget_in (t : Z) (l : list (Z * Z)) : In t (map fst l) -> exists c, aget Z.eqb t l = Some c /\ In (t, c) l.
+Proof.
+  induction l as [|[k c] r IH]; simpl; [tauto|]. intros [H|H].
+  - subst. rewrite Z.eqb_refl. eauto.
+  - destruct (t =? k) eqn:E.
+    + assert (t = k) by lia. subst. eauto.
+    + destruct (IH H) as (c' & H1 & H2). eauto.
+Qed.
+
+Lemma zaget_Some_in (t c : Z) (l : list (Z * Z)) : aget Z.eqb t l = Some c -> In (t, c) l.
+Proof.
+  induction l as [|[k c'] r IH]; simpl; [discriminate|].
+  destruct (t =? k) eqn:E.
+  - intros H; inversion H; subst. assert (t = k) by lia. subst. auto.
+  - auto.
+Qed.
+
+(** * counters: [bump], [bump_range], [bump_incl] *)
+Definition zget (l : list (Z * Z)) (t : Z) : Z :=
+  match aget Z.eqb t l with Some c => c | None => 0 end.
+
+Lemma zget_bump t d l t' : zget (bump t d l) t' = zget l t' + (if t =? t' then d else 0).
+Proof.
+  unfold zget. induction l as [|[k c] r IH]; simpl.
+  - destruct (t' =? t) eqn:E1; destruct (t =? t') eqn:E2; lia.
+  - destruct (t =? k) eqn:E1; simpl.
+    + destruct (t' =? k) eqn:E2; destruct (t =? t') eqn:E3; lia.
+    + destruct (t' =? k) eqn:E2; [destruct (t =? t') eqn:E3; lia|]. apply IH.
+Qed.
+
+Lemma bump_keys t d l :
+  map fst (bump t d l) = if memZ t (map fst l) then map fst l else map fst l ++ [t].
+Proof.
+  unfold memZ. induction l as [|[k c] r IH]; simpl; [reflexivity|].
+  destruct (t =? k) eqn:E; simpl; [reflexivity|].
+  rewrite IH. destruct (existsb (Z.eqb t) (map fst r)); reflexivity.
+Qed.
+
+Lemma bump_nodup t d l : NoDup (map fst l) -> NoDup (map fst (bump t d l)).
+Proof.
+  intros H. rewrite bump_keys. destruct (memZ t (map fst l)) eqn:E; [assumption|].
+  apply NoDup_snoc; [assumption|]. intros Hin. apply memZ_In in Hin. congruence.
+Qed.
+
+Lemma bump_pos t d l : 0 < d -> (forall k c, In (k, c) l -> 0 < c) ->
+  forall k c, In (k, c) (bump t d l) -> 0 < c.
+Proof.
+  intros Hd. induction l as [|[k0 c0] r IH]; simpl; intros Hp k c Hin.
+  - destruct Hin as [Hin|[]]. inversion Hin; subst. assumption.
+  - destruct (t =? k0) eqn:E.
+    + destruct Hin as [Hin|Hin].
+      * inversion Hin; subst. specialize (Hp k c0 (or_introl eq_refl)). lia.
+      * apply (Hp k c). right. assumption.
+    + destruct Hin as [Hin|Hin].
+      * apply (Hp k c). left. assumption.
+      * apply (IH (fun k' c' H' => Hp k' c' (or_intror H')) k c Hin).
+Qed.
+
+Lemma zget_bump_range n : forall a l t,
+  zget (bump_range a n l) t = zget l t + (if (a <=? t) && (t <? a + Z.of_nat n) then 2 else 0).
+Proof.
+  induction n as [|n IH]; intros a l t; cbn [bump_range].
+  - destruct ((a <=? t) && (t <? a + Z.of_nat 0)) eqn:E; lia.
+  - rewrite IH, zget_bump.
+    destruct (a =? t) eqn:E1;
+    destruct ((a + 1 <=? t) && (t <? a + 1 + Z.of_nat n)) eqn:E2;
+    destruct ((a <=? t) && (t <? a + Z.of_nat (S n))) eqn:E3; lia.
+Qed.
+
+Lemma bump_range_nodup n : forall a l, NoDup (map fst l) -> NoDup (map fst (bump_range a n l)).
+Proof. induction n as [|n IH]; intros a l H; cbn [bump_range]; [assumption|]. apply IH. apply bump_nodup. assumption. Qed.
+
+Lemma bump_range_pos n : forall a l, (forall k c, In (k, c) l -> 0 < c) ->
+  forall k c, In (k, c) (bump_range a n l) -> 0 < c.
+Proof.
+  induction n as [|n IH]; intros a l H; cbn [bump_range]; [assumption|].
+  apply IH. apply bump_pos; [lia|assumption].
+Qed.
+
+Lemma zget_bump_incl a b l t :
+  zget (bump_incl a b l) t = zget l t + (if (a <=? t) && (t <=? b) then 2 else 0).
+Proof.
+  unfold bump_incl. rewrite zget_bump_range.
+  destruct ((a <=? t) && (t <? a + Z.of_nat (Z.to_nat (b - a + 1)))) eqn:E1;
+  destruct ((a <=? t) && (t <=? b)) eqn:E2; lia.
+Qed.
+
+(** * counting present pairs *)
+Definition b2z (b : bool) : Z := if b then 1 else 0.
+Definition cnt (t : Z) (ed : list ((Z * Z) * tline)) : Z :=
+  Z.of_nat (length (filter (fun e => mem t (tl_list (snd e))) ed)).
+Arguments cnt : simpl never.
+
+Lemma cnt_nil t : cnt t [] = 0.
+Proof. reflexivity. Qed.
+
+Lemma cnt_cons t x ed : cnt t (x :: ed) = b2z (mem t (tl_list (snd x))) + cnt t ed.
+Proof.
+  unfold cnt. cbn [filter]. destruct (mem t (tl_list (snd x))); cbn [length]; unfold b2z; lia.
+Qed.
+
+Lemma cnt_app t ed x : cnt t (ed ++ [x]) = cnt t ed + b2z (mem t (tl_list (snd x))).
+Proof.
+  induction ed as [|y r IH].
+  - change ([] ++ [x]) with [x]. rewrite cnt_cons, cnt_nil. lia.
+  - rewrite <- app_comm_cons, !cnt_cons, IH. lia.
+Qed.
+
+Lemma cnt_aset t k old new ed : aget peqb k ed = Some old ->
+  cnt t (aset peqb k new ed) = cnt t ed + b2z (mem t (tl_list new)) - b2z (mem t (tl_list old)).
+Proof.
+  induction ed as [|[k' v'] r IH]; cbn [aget aset]; [discriminate|].
+  destruct (peqb k k') eqn:E; intros H.
+  - inversion H; subst. rewrite !cnt_cons. cbn [snd]. lia.
+  - rewrite !cnt_cons, IH by assumption. lia.
+Qed.
+
+(** * the invariant on raw lists *)
+Definition IS (ed : list ((Z * Z) * tline)) (sn : list (Z * Z)) : Prop :=
+  NoDup (akeys ed) /\ NoDup (map fst sn) /\
+  (forall t, zget sn t = 2 * cnt t ed) /\
+  (forall t c, In (t, c) sn -> 0 < c).
+
+Lemma InvSnap_IS g : InvSnap g <-> IS (g_edges g) (g_snaps g).
+Proof. unfold InvSnap, IS, snap_get, count_present, zget, cnt. tauto. Qed.
+
+Lemma IS_app ed sn k s f : IS ed sn -> aget peqb k ed = None ->
+  IS (ed ++ [(k, ((s, f), []))]) (bump_incl s f sn).
+Proof.
+  intros (Hk & Hs & Hz & Hp) Hget. split; [|split; [|split]].
+  - unfold akeys. rewrite map_app. apply NoDup_snoc; [assumption|]. apply aget_None_notin. assumption.
+  - apply bump_range_nodup. assumption.
+  - intros t. rewrite zget_bump_incl, cnt_app, Hz. cbn [snd].
+    change (mem t (tl_list ((s, f), []))) with ((s <=? t) && (t <=? f) || false).
+    rewrite orb_false_r. unfold b2z. destruct ((s <=? t) && (t <=? f)); lia.
+  - apply bump_range_pos. assumption.
+Qed.
+
+Lemma IS_aset ed sn k old new lo hi :
+  IS ed sn -> aget peqb k ed = Some old ->
+  (forall t, b2z (mem t (tl_list new)) - b2z (mem t (tl_list old)) = b2z ((lo <=? t) && (t <=? hi))) ->
+  IS (aset peqb k new ed) (bump_incl lo hi sn).
+Proof.
+  intros (Hk & Hs & Hz & Hp) Hget Hd. split; [|split; [|split]].
+  - rewrite akeys_aset_in; [assumption|congruence].
+  - apply bump_range_nodup. assumption.
+  - intros t. rewrite zget_bump_incl, (cnt_aset t k old new ed Hget), Hz. specialize (Hd t).
+    destruct ((lo <=? t) && (t <=? hi)); unfold b2z in Hd at 3; lia.
+  - apply bump_range_pos. assumption.
+Qed.
+
+(** * the step *)
+Lemma all_canon_of_Inv g h : Inv g h -> all_canon g.
+Proof. intros H k. apply (H k). Qed.
+
+Lemma InvSnap_init dir rem : InvSnap (empty_graph dir rem).
+Proof.
+  unfold InvSnap, snap_get, count_present. simpl. repeat split; try constructor; intros; tauto.
+Qed.
+
+Lemma gap_diff a b older s f : canon ((a, b) :: older) -> b + 1 < s ->
+  forall t, b2z (mem t (tl_list ((s, f), (a, b) :: older))) - b2z (mem t (tl_list ((a, b), older)))
+            = b2z ((s <=? t) && (t <=? f)).
+Proof.
+  intros Hc Hlt t. unfold tl_list. cbn [fst snd].
+  change (mem t ((s, f) :: (a, b) :: older)) with (in_itv t (s, f) || mem t ((a, b) :: older)).
+  unfold in_itv at 1. cbn [fst snd].
+  destruct (mem t ((a, b) :: older)) eqn:Hm.
+  - pose proof (mem_ge_first _ _ _ _ Hc Hm) as Hb. rewrite orb_true_r.
+    destruct (s <=? t) eqn:E1; destruct (t <=? f) eqn:E2; unfold b2z; simpl; lia.
+  - rewrite orb_false_r. destruct ((s <=? t) && (t <=? f)); unfold b2z; lia.
+Qed.
+
+Lemma ext_diff a b older s f : canon ((a, b) :: older) -> a <= s -> s <= b + 1 -> b < f ->
+  forall t, b2z (mem t (tl_list ((a, f), older))) - b2z (mem t (tl_list ((a, b), older)))
+            = b2z ((b + 1 <=? t) && (t <=? f)).
+Proof.
+  intros Hc Has Hsb Hbf t. unfold tl_list. cbn [fst snd].
+  change (mem t ((a, f) :: older)) with (in_itv t (a, f) || mem t older).
+  change (mem t ((a, b) :: older)) with (in_itv t (a, b) || mem t older).
+  unfold in_itv. cbn [fst snd].
+  assert (Hab : a <= b) by (simpl in Hc; tauto).
+  destruct (mem t older) eqn:Hm.
+  - pose proof (canon_older_below _ _ _ Hc t Hm) as Hb. rewrite !orb_true_r.
+    destruct (b + 1 <=? t) eqn:E1; destruct (t <=? f) eqn:E2; unfold b2z; simpl; lia.
+  - rewrite !orb_false_r.
+    destruct (a <=? t) eqn:E0; destruct (t <=? b) eqn:E3;
+    destruct (b + 1 <=? t) eqn:E1; destruct (t <=? f) eqn:E2; unfold b2z; simpl; lia.
+Qed.
+
+Lemma InvSnap_step g u v t e g' o :
+  g_rem g = true -> all_canon g -> InvSnap g -> add_interaction g u v t e = (g', o) -> InvSnap g'.
+Proof.
+  intros Hrem Hcan HI. unfold add_interaction.
+  destruct t as [s|]; [|intros H; inversion H; subst; exact HI].
+  cbv zeta.
+  set (k := nk (g_dir g) u v).
+  set (f := match e with Some e' => if g_rem g then e' - 1 else s | None => s end).
+  rewrite Hrem.
+  pose proof (Hcan k) as Hck.
+  pose proof (proj1 (InvSnap_IS g) HI) as HIS.
+  destruct (aget peqb k (g_edges g)) as [[[a b] older]|] eqn:Hget.
+  - simpl in Hck.
+    destruct (s <? a) eqn:E1; [intros H; inversion H; subst; exact HI|].
+    destruct (f <? s) eqn:E2; [intros H; inversion H; subst; exact HI|].
+    destruct (b + 1 <? s) eqn:E3.
+    { intros H; inversion H; subst. apply InvSnap_IS.
+      change (IS (aset peqb k ((s, f), (a, b) :: older) (g_edges g)) (bump_incl s f (g_snaps g))).
+      apply (IS_aset _ _ k ((a, b), older)); auto.
+      apply gap_diff; [exact Hck|lia]. }
+    destruct (b <? f) eqn:E4.
+    { intros H; inversion H; subst. apply InvSnap_IS.
+      change (IS (aset peqb k ((a, f), older) (g_edges g)) (bump_incl (b + 1) f (g_snaps g))).
+      apply (IS_aset _ _ k ((a, b), older)); auto.
+      apply (ext_diff a b older s f); [exact Hck|lia|lia|lia]. }
+    intros H; inversion H; subst; exact HI.
+  - destruct (f <? s) eqn:E2; [intros H; inversion H; subst; exact HI|].
+    intros H; inversion H; subst. apply InvSnap_IS.
+    change (IS (g_edges g ++ [(k, ((s, f), []))]) (bump_incl s f (g_snaps g))).
+    apply IS_app; assumption.
+Qed.
+
+Theorem InvSnap_run cs : forall g h, g_rem g = true -> Inv g h -> InvSnap g -> InvSnap (run_calls g cs).
+Proof.
+  induction cs as [|c r IH]; intros g h Hrem HI HS; simpl; [assumption|].
+  destruct (do_call g c) as [g' o] eqn:Hd. simpl.
+  pose proof (Inv_step' _ _ _ _ _ HI Hd) as (H1 & H2).
+  unfold do_call in Hd.
+  assert (HS' : InvSnap g') by (eapply InvSnap_step; eauto using all_canon_of_Inv).
+  assert (Hrem' : g_rem g' = true).
+  { pose proof (step_edges _ _ _ _ _ _ _ Hd) as Hst. cbv zeta in Hst. destruct Hst as (_ & Hr & _). congruence. }
+  destruct o; [apply (IH g' (h ++ [c])); auto|..];
+    (assert (g' = g) by (apply H2; discriminate); subst g'; apply (IH g h); auto).
+Qed.
+
+(** * sorting facts about [sortZ] *)
+Lemma insZ_perm x l : Permutation (insZ x l) (x :: l).
+Proof.
+  induction l as [|y r IH]; simpl; [apply Permutation_refl|].
+  destruct (x <=? y); [apply Permutation_refl|].
+  apply perm_trans with (y :: x :: r); [apply perm_skip; assumption|apply perm_swap].
+Qed.
+
+Lemma sortZ_perm l : Permutation (sortZ l) l.
+Proof.
+  induction l as [|x r IH]; simpl; [constructor|].
+  apply perm_trans with (x :: sortZ r); [apply insZ_perm|apply perm_skip; assumption].
+Qed.
+
+Lemma insZ_hd y x r : HdRel Z.le y r -> y <= x -> HdRel Z.le y (insZ x r).
+Proof.
+  intros H Hyx. destruct r as [|z r']; simpl; [constructor; assumption|].
+  destruct (x <=? z); constructor; [assumption|]. inversion H; assumption.
+Qed.
+
+Lemma insZ_sorted x l : Sorted Z.le l -> Sorted Z.le (insZ x l).
+Proof.
+  induction l as [|y r IH]; simpl; intros H.
+  - constructor; constructor.
+  - destruct (x <=? y) eqn:E.
+    + constructor; [assumption|constructor; lia].
+    + inversion H as [|? ? Hs Hh]; subst. constructor; [apply IH; assumption|].
+      apply insZ_hd; [assumption|lia].
+Qed.
+
+Lemma sortZ_sorted l : Sorted Z.le (sortZ l).
+Proof. induction l as [|x r IH]; simpl; [constructor|apply insZ_sorted; assumption]. Qed.
+
+Lemma sortZ_In x l : In x (sortZ l) <-> In x l.
+Proof.
+  split; apply Permutation_in; [apply sortZ_perm|apply Permutation_sym, sortZ_perm].
+Qed.
+
+Lemma sortZ_length l : length (sortZ l) = length l.
+Proof. apply Permutation_length, sortZ_perm. Qed.
+
+Lemma le_nodup_strict l : StronglySorted Z.le l -> NoDup l -> StronglySorted Z.lt l.
+Proof.
+  induction l as [|x r IH]; intros Hs Hn; [constructor|].
+  inversion Hs as [|? ? Hs' Hf]; subst. inversion Hn as [|? ? Hni Hn']; subst.
+  constructor; [auto|]. rewrite Forall_forall in *. intros y Hy.
+  specialize (Hf y Hy). assert (x <> y) by (intros ->; auto). lia.
+Qed.
+
+Lemma sortZ_strict l : NoDup l -> StronglySorted Z.lt (sortZ l).
+Proof.
+  intros H. apply le_nodup_strict.
+  - apply Sorted_StronglySorted; [intros a b c; apply Z.le_trans|apply sortZ_sorted].
+  - apply (Permutation_NoDup (Permutation_sym (sortZ_perm l)) H).
+Qed.
+
+(** * consequences used by properties/C04.v *)
+Lemma ids_spec g : InvSnap g -> forall t, In t (snapshot_ids g) <-> 0 < count_present g t.
+Proof.
+  intros (_ & Hnd & Hz & Hp) t. unfold snapshot_ids. rewrite sortZ_In.
+  specialize (Hz t). unfold snap_get in Hz. split.
+  - intros Hin. destruct (zaget_in _ _ Hin) as (c & Hg & Hc). rewrite Hg in Hz.
+    specialize (Hp t c Hc). lia.
+  - intros Hc. destruct (aget Z.eqb t (g_snaps g)) as [c|] eqn:E; [|lia].
+    apply zaget_Some_in in E. apply in_map_iff. exists (t, c). auto.
+Qed.
+
+Lemma ids_sorted g : InvSnap g -> StronglySorted Z.lt (snapshot_ids g).
+Proof. intros (_ & Hnd & _). apply sortZ_strict. assumption. Qed.
+
+Lemma ips_spec g : InvSnap g -> forall t,
+  fst (interactions_per_snapshot g t) = 2 * count_present g t /\ snd (interactions_per_snapshot g t) = 2.
+Proof.
+  intros (_ & _ & Hz & _) t. unfold interactions_per_snapshot. simpl. split; [|reflexivity]. apply Hz.
+Qed.
+
+Lemma count_sub g t (l : list ((Z * Z) * tline)) :
+  g_rem g = true -> all_canon g ->
+  (forall k v, In (k, v) l -> aget peqb k (g_edges g) = Some v) ->
+  length (filter (fun e => mem t (tl_list (snd e))) l)
+  = length (filter (fun k => key_present g k (Some t)) (map fst l)).
+Proof.
+  intros Hrem Hcan. induction l as [|[k v] r IH]; intros Hl; [reflexivity|].
+  cbn [map filter fst snd].
+  assert (Hg : aget peqb k (g_edges g) = Some v) by (apply Hl; left; reflexivity).
+  assert (Hkp : key_present g k (Some t) = mem t (tl_list v)).
+  { unfold key_present. rewrite Hg. unfold presence_test. rewrite Hrem. apply presence_mem.
+    pose proof (Hcan k) as Hc. rewrite Hg in Hc. exact Hc. }
+  rewrite Hkp. assert (IH' := IH (fun k' v' H' => Hl k' v' (or_intror H'))).
+  destruct (mem t (tl_list v)); cbn [length]; congruence.
+Qed.
+
+Lemma count_present_spec g t : NoDup (akeys (g_edges g)) -> g_rem g = true -> all_canon g ->
+  count_present g t = Z.of_nat (length (filter (fun k => key_present g k (Some t)) (akeys (g_edges g)))).
+Proof.
+  intros Hnd Hrem Hcan. unfold count_present, akeys. f_equal.
+  apply count_sub; auto. intros k v Hin. apply in_aget_nodup; assumption.
+Qed.
